@@ -8,6 +8,11 @@ run_independence edits applied to a copy (clone, export_leaf, list returned by `
 
 The oracle reads private fields through rcc.harness.snap (never the library's own __eq__) and compares
 object identities directly.
+
+Documents: forest shapes x rich fillings, resolved links, the naming dimension (how the NAME of an object relates
+to ids) and the relation dimension (with whom an object SHARES its id / name / attributes / content: Document,
+parent, ancestor, sibling, child, descendant, other branch; clones grafted into the document of their original),
+each also loaded from files; export_leaf additionally in trees whose root is a detached Section.
 """
 from __future__ import annotations
 
@@ -133,16 +138,250 @@ def depth_of(n):
     return d
 
 
-def build_named(shape, rnd, mode_of, props_per_sec=(0, 1, 2), rich=True):
+# ---------------------------------------------------------------------------------------------
+# relation dimension: what an object has in common with ANOTHER object of the same document
+# ---------------------------------------------------------------------------------------------
+# Ids are not guaranteed to be unique: the constructors and new_id() accept any uuid (oid=...), a copy made with
+# keep_id=True can be attached next to / below its original, and files with repeated ids load.  The same holds for
+# names (unique among siblings only), own attributes and whole content.  A copy must be determined by WHICH object
+# was copied, never by what that object happens to share with another one, so the generator varies, for every
+# object at every depth, with whom it shares its id / name / attributes / content.
+
+ID_MODES = ['doc@ctor', 'doc@new_id', 'parent@ctor', 'parent@new_id', 'ancestor@ctor', 'ancestor@new_id',
+            'sibling@ctor', 'sibling@new_id', 'other-kind-sibling', 'child', 'descendant', 'other-branch']
+CONTENT_MODES = ['name-of-parent', 'name-of-ancestor', 'attrs-of-parent', 'attrs-of-ancestor', 'attrs-of-other-branch']
+REL_MODES = ID_MODES + CONTENT_MODES
+REDUCED_REL_MODES = ['doc@ctor', 'parent@ctor', 'ancestor@new_id', 'sibling@new_id', 'child', 'other-branch',
+                     'attrs-of-parent']
+
+# a clone of an object attached elsewhere in the same document
+GRAFT_WHERE = ['below-self', 'below-descendant', 'sibling', 'above', 'other-branch']
+GRAFT_FLAGS = [(True, True), (True, False), (False, True), (False, False)]      # (children, keep_id)
+
+
+def ancestors_of(o):
+    out = []
+    x = getattr(o, '_parent', None)
+    while x is not None:
+        out.append(x)
+        x = getattr(x, '_parent', None)
+    return out
+
+
+def far_ancestor(parent):
+    """The top-most Section above an object with the given parent that is not the parent itself (None: there is none)."""
+    cands = [a for a in ancestors_of(parent) if isinstance(a, BaseSection)]
+    return cands[-1] if cands else None
+
+
+def kids_of(o):
+    if isinstance(o, BaseProperty):
+        return []
+    return list(list.__iter__(o._sections)) + list(list.__iter__(getattr(o, '_props', [])))
+
+
+def unrelated_to(doc, o):
+    """Objects of the document that are neither o, an ancestor, a descendant nor a sibling of o (Sections first)."""
+    secs, props = h.walk(doc)
+    anc = ancestors_of(o)
+    return [x for x in secs + props
+            if x is not o and not any(x is a for a in anc) and not _inside(x, o) and x._parent is not o._parent]
+
+
+def apply_relation(doc, o, rel):
+    """Realise a relation through the public API (new_id(oid) / setters); False when impossible at this position."""
+    par = o._parent
+    target = None
+    if rel in ID_MODES:
+        if rel == 'doc@new_id':
+            target = doc
+        elif rel == 'parent@new_id':
+            target = par
+        elif rel == 'ancestor@new_id':
+            target = far_ancestor(par)
+        elif rel == 'sibling@new_id':
+            lst = par._sections if isinstance(o, BaseSection) else par._props
+            same = [c for c in list.__iter__(lst) if c is not o]
+            target = same[-1] if same else None
+        elif rel == 'other-kind-sibling':
+            lst = getattr(par, '_props', []) if isinstance(o, BaseSection) else par._sections
+            other = list(list.__iter__(lst))
+            target = other[0] if other else None
+        elif rel == 'child':
+            kids = kids_of(o)
+            target = kids[0] if kids else None
+        elif rel == 'descendant':
+            deep = [x for k in kids_of(o) for x in kids_of(k)]
+            target = deep[-1] if deep else None
+        elif rel == 'other-branch':
+            cands = unrelated_to(doc, o)
+            target = cands[0] if cands else None
+        if target is None:
+            return False
+        return h.call(o.new_id, target._id)[0] == 'ret'
+    if rel == 'attrs-of-other-branch':
+        cands = [x for x in unrelated_to(doc, o) if kind_of(x) == kind_of(o)]
+        target = cands[0] if cands else None
+    else:
+        target = par if rel.endswith('parent') else far_ancestor(par)
+    if target is None or isinstance(target, BaseDocument):
+        return False
+    if rel.startswith('attrs') and kind_of(target) != kind_of(o):
+        return False
+    if h.call(setattr, o, 'name', target._name)[0] != 'ret' or o._name != target._name:
+        return False
+    if rel.startswith('attrs'):
+        fields = ('type', 'definition', 'reference') if isinstance(o, BaseSection) else \
+            ('definition', 'reference', 'unit', 'uncertainty', 'value_origin')
+        for f in fields:
+            h.call(setattr, o, f, getattr(target, f))
+    return True
+
+
+def graft_clone(doc, src, where, children, keep_id):
+    """Attach a clone of src (made with the given flags) at another place of the document; False when impossible."""
+    secs = h.walk(doc)[0]
+    home = src._parent
+    if isinstance(src, BaseProperty):
+        if not children:
+            return False                    # a Property has no children flag
+        below = [s for s in secs if _inside(s, home) and s is not home]
+        target = {'below-self': None,
+                  'below-descendant': below[-1] if below else None,
+                  'sibling': home,
+                  'above': far_ancestor(home) or (home._parent if isinstance(home._parent, BaseSection) else None),
+                  'other-branch': next((s for s in secs if not _inside(s, home) and not _inside(home, s)), None)}[where]
+        kind, cp = h.call(src.clone, keep_id=keep_id)
+    else:
+        below = [s for s in secs if _inside(s, src) and s is not src]
+        target = {'below-self': src,
+                  'below-descendant': below[-1] if below else None,
+                  'sibling': home,
+                  'above': None if isinstance(home, BaseDocument) else (far_ancestor(home) or home._parent),
+                  'other-branch': next((s for s in secs if not _inside(s, src) and not _inside(src, s)
+                                        and s is not home), None)}[where]
+        kind, cp = h.call(src.clone, children=children, keep_id=keep_id)
+    if target is None or kind == 'exc':
+        return False
+    if h.call(target.append, cp)[0] == 'ret':
+        return True
+    # refused because of a sibling of that name: the copy gets another name (everything else stays equal)
+    h.call(setattr, cp, 'name', cp._name + '-copy')
+    return h.call(target.append, cp)[0] == 'ret'
+
+
+ID_RELATIONS = ['parent', 'ancestor', 'document', 'child', 'descendant', 'sibling', 'elsewhere']
+
+
+def id_classes(root):
+    """id(obj) -> with whom the object shares its id (read from private fields): 'unique' or the first relation that
+    holds out of ID_RELATIONS (parent / ancestor mean a Section), '+more' when several hold."""
+    root = root_of(root)
+    objs = [root] + ([] if isinstance(root, BaseProperty) else [x for l in h.walk(root) for x in l])
+    by_id = {}
+    for o in objs:
+        by_id.setdefault(o._id, []).append(o)
+    out = {}
+    for o in objs:
+        rels = set()
+        anc = ancestors_of(o)
+        par = anc[0] if anc else None
+        for x in by_id[o._id]:
+            if x is o:
+                continue
+            if isinstance(x, BaseDocument):
+                rels.add('document')
+            elif x is par:
+                rels.add('parent')
+            elif any(x is a for a in anc):
+                rels.add('ancestor')
+            elif x._parent is o:
+                rels.add('child')
+            elif _inside(x, o):
+                rels.add('descendant')
+            elif x._parent is par:
+                rels.add('sibling')
+            else:
+                rels.add('elsewhere')
+        first = [r for r in ID_RELATIONS if r in rels][:1]
+        out[id(o)] = ('id==' + first[0] + ('+more' if len(rels) > 1 else '')) if rels else 'unique'
+    return out
+
+
+def content_classes(root):
+    """id(obj) -> what a Section / Property has in common, apart from the id, with an object above it or elsewhere:
+    the strongest of  content (own attributes and, for a Section, all its Properties) / name,  and where."""
+    root = root_of(root)
+    objs = [] if isinstance(root, BaseProperty) else [x for l in h.walk(root) for x in l]
+    if isinstance(root, BaseSection):
+        objs = [root] + objs
+
+    def own(o):
+        d = raw_snap(o, ids=False)
+        d.pop('sections', None)
+        return h.freeze(d)
+    sig = {id(o): own(o) for o in objs}
+    out = {}
+    for o in objs:
+        anc = [a for a in ancestors_of(o) if not isinstance(a, BaseDocument)]
+        named = anc
+        if isinstance(o, BaseProperty):
+            named = anc + [p for a in anc[1:] for p in list.__iter__(a._props)]
+            anc = [p for a in anc[1:] for p in list.__iter__(a._props)]     # Properties of the Sections above
+        others = [x for x in objs if x is not o and kind_of(x) == kind_of(o) and not any(x is a for a in anc)
+                  and not _inside(x, o)]
+        if any(sig[id(a)] == sig[id(o)] for a in anc):
+            c = 'content-of-object-above'
+        elif any(a._name == o._name for a in named):
+            c = 'name-of-object-above'
+        elif any(sig[id(x)] == sig[id(o)] for x in others):
+            c = 'content-of-object-elsewhere'
+        else:
+            c = 'distinct'
+        out[id(o)] = c
+    return out
+
+
+def build_named(shape, rnd, mode_of, props_per_sec=(0, 1, 2), rich=True, rel_of=None, infeasible=None, graft=None):
     """Document over a forest shape; mode_of(kind, k) gives the naming mode of the k-th created object
-    (Sections and Properties are counted together in creation order: a Section, its Properties, its sub-Sections)."""
+    (Sections and Properties are counted together in creation order: a Section, its Properties, its sub-Sections).
+    rel_of(kind, k) gives the relation mode (REL_MODES: whose id / name / attributes the k-th object shares; 'own' = none);
+    graft = (k, where, children, keep_id): a clone of the k-th object is attached elsewhere in the document.
+    A relation / graft that cannot be realised at that position is appended to the list `infeasible`."""
     post = []
     counter = [0]
+    if infeasible is None:
+        infeasible = []
 
     def nxt(kind):
         k = counter[0]
         counter[0] += 1
-        return mode_of(kind, k)
+        return mode_of(kind, k), (rel_of(kind, k) if rel_of else 'own')
+
+    def ctor_oid(rel, parent, elders):
+        """id known when the object is created (relation realised through the constructor argument oid)"""
+        if rel == 'doc@ctor':
+            return doc._id
+        if rel == 'parent@ctor':
+            return parent._id
+        if rel == 'ancestor@ctor':
+            a = far_ancestor(parent)
+            return a._id if a is not None else None
+        if rel == 'sibling@ctor':
+            return elders[-1]._id if elders else None
+        return None
+
+    def create(cls, rel, parent, elders, kw):
+        if rel.endswith('@ctor'):
+            oid = ctor_oid(rel, parent, elders)
+            if oid is None:
+                infeasible.append(rel)
+            else:
+                kind, obj = h.call(cls, parent=parent, **dict(kw, oid=oid))
+                if kind == 'ret':
+                    return obj
+                infeasible.append(rel)          # refused (an unnamed object is named after the id: name clash)
+        return cls(parent=parent, **kw)
 
     def ctor_name(mode, used, pool):
         kw = {}
@@ -166,30 +405,34 @@ def build_named(shape, rnd, mode_of, props_per_sec=(0, 1, 2), rich=True):
 
         def add(parent, forest):
             used = set()
+            elders = []
             for sub in forest:
-                mode = nxt('section')
+                mode, rel = nxt('section')
                 kw = ctor_name(mode, used, PLAIN_NAMES)
                 if rnd.random() < 0.85:
                     kw['type'] = rnd.choice(['t', 'setup/daq', 'n.s.x'])      # else the default type
                 if rich:
                     kw['definition'] = rnd.choice([None, 'def', ' spaced def '])
                     kw['reference'] = rnd.choice([None, 'ref'])
-                sec = odml.Section(parent=parent, **kw)
-                post.append((sec, mode))
+                sec = create(odml.Section, rel, parent, elders, kw)
+                elders.append(sec)
+                post.append((sec, mode, rel))
                 if rich and rnd.random() < 0.3:
                     sec.sec_cardinality = rnd.choice(h.CARDS)
                 if rich and rnd.random() < 0.3:
                     sec.prop_cardinality = rnd.choice(h.CARDS)
                 pused = set()
+                pelders = []
                 for _ in range(rnd.choice(props_per_sec)):
-                    pmode = nxt('property')
+                    pmode, prel = nxt('property')
                     pkw = ctor_name(pmode, pused, PLAIN_NAMES)
                     dtype = rnd.choice(list(h.VALUE_POOL))
                     vals = list(rnd.choice(h.VALUE_POOL[dtype] + [[]]))
                     if rnd.random() < 0.15:
                         dtype = None                                            # dtype inferred from the values
-                    p = odml.Property(dtype=dtype, values=vals, parent=sec, **pkw)
-                    post.append((p, pmode))
+                    p = create(odml.Property, prel, sec, pelders, dict(pkw, dtype=dtype, values=vals))
+                    pelders.append(p)
+                    post.append((p, pmode, prel))
                     if rich:
                         if rnd.random() < 0.4:
                             p.unit = rnd.choice(['mV', 'µm', 's'])
@@ -209,10 +452,16 @@ def build_named(shape, rnd, mode_of, props_per_sec=(0, 1, 2), rich=True):
                 add(sec, sub)
         add(doc, shape)
 
+        # relations to objects known only now: ids through new_id(oid), names / attributes through the setters
+        for o, mode, rel in post:
+            if rel != 'own' and not rel.endswith('@ctor'):
+                if not apply_relation(doc, o, rel):
+                    infeasible.append(rel)
+
         # second pass: names that refer to ids known only now (set through the public setter; a clash with a
         # sibling is refused by the library and the object keeps the name it has)
-        everything = [doc] + [o for o, _ in post]
-        for o, mode in post:
+        everything = [doc] + [o for o, _, _ in post]
+        for o, mode, rel in post:
             par = o._parent
             new = None
             if mode == 'renamed-to-default':
@@ -244,19 +493,32 @@ def build_named(shape, rnd, mode_of, props_per_sec=(0, 1, 2), rich=True):
                 new = rnd.choice([x for x in everything if x is not o])._id
             if new is not None:
                 h.call(setattr, o, 'name', new)
+
+        if graft is not None:
+            k, where, children, keep_id = graft
+            if k >= len(post) or not graft_clone(doc, post[k][0], where, children, keep_id):
+                infeasible.append('graft')
     return doc
 
 
 FORMATS = ['XML', 'JSON', 'YAML']
 
 
-def via_file(doc, fmt, tag='load'):
+def via_file(doc, fmt, tag='load', raw=False):
     """Save the document and load it again (real files below .work); None when the library refuses."""
     d = os.path.join(WORK, '%s-%d' % (tag, os.getpid()))
     os.makedirs(d, exist_ok=True)
     path = os.path.join(d, 'doc.' + fmt.lower())
     try:
         kind, _ = h.call(odml.save, doc, path, fmt)
+        if kind == 'exc' and raw:
+            # odml.save refuses documents it finds invalid (e.g. repeated ids); such files exist nevertheless and load:
+            # write what the (non-validating) writer renders
+            from odml.tools.odmlparser import ODMLWriter
+            kind, text = h.call(ODMLWriter(fmt).to_string, doc)
+            if kind == 'ret':
+                with open(path, 'w', encoding='utf-8') as f:
+                    f.write(text)
         if kind == 'exc':
             return None
         kind, res = h.call(odml.load, path, fmt)
@@ -273,6 +535,17 @@ def cleanup_work():
         os.rmdir(WORK)
     except OSError:
         pass
+
+
+def tidy(fn):
+    """The scratch directory of this process is removed also when the run stops with an exception."""
+    def run(tier, seed):
+        try:
+            return fn(tier, seed)
+        finally:
+            cleanup_work()
+    run.__name__, run.__doc__ = fn.__name__, fn.__doc__
+    return run
 
 
 PLACEMENT_SHAPES_QUICK = [((),), (((),),), ((((),),),), ((), ())]
@@ -353,11 +626,122 @@ def naming_makers(tier, seed, scope='full', max_secs=None, per_shape=1):
     return out
 
 
+REL_SHAPES_QUICK = [((((),),),), (((),), ())]
+REL_SHAPES_THOROUGH = REL_SHAPES_QUICK + [(((), ()),), ((((),), ()),)]
+
+
+def relation_makers(tier, seed, scope='full'):
+    """[(witness, make)] over the relation dimension (see REL_MODES / GRAFT_WHERE).
+    1. placement (exhaustive): every shape x every position (each Section, each Property, every depth) x every
+       relation mode that can be realised there: exactly that object shares its id / name / attributes with the
+       Document, its parent, an ancestor, a sibling, a child, a descendant or an object of another branch;
+    2. uniform: every object of the document has the same relation mode (e.g. every id is the parent's id, hence
+       all ids of the document are equal);
+    3. grafts (exhaustive): every position x every place x clone flags: a clone of that object, made with / without
+       keep_id and with / without children, attached below the original, below a descendant, next to it, above
+       it, in another branch;
+    4. mixtures: every object draws its relation mode AND its naming mode at random, plus a random graft;
+    5. the same documents written to a file and loaded again (XML / JSON / YAML).
+    scope='reduced': fewer modes / shapes / flags (for the expensive independence runs)."""
+    full = scope == 'full'
+    modes = list(REL_MODES) if full else list(REDUCED_REL_MODES)
+    shapes = (REL_SHAPES_THOROUGH if tier != 'quick' else REL_SHAPES_QUICK) if full else \
+        REL_SHAPES_QUICK
+    # once=True: only the deepest position where the relation can be realised (instead of every position)
+    once = not full and tier == 'quick'
+    specs = []
+    for shape in shapes:
+        n = count_objects(shape, 1)
+        for mode in modes:
+            for pos in reversed(range(n)):
+                specs.append((shape, 'one:%s@%d' % (mode, pos), (1,)))
+    for shape in shapes:
+        for mode in (modes if not once else ['parent@ctor', 'sibling@new_id']):
+            specs.append((shape, 'all:%s' % mode, (1, 2) if full else (1,)))
+    if full:
+        wheres = GRAFT_WHERE
+        flags = {w: (GRAFT_FLAGS if (tier != 'quick' or w == 'below-self') else GRAFT_FLAGS[:2]) for w in wheres}
+    else:
+        wheres = ['below-self', 'sibling', 'other-branch']
+        flags = {w: GRAFT_FLAGS[:2] for w in wheres}
+    for shape in shapes:
+        n = count_objects(shape, 1)
+        for where in wheres:
+            for children, keep_id in flags[where]:
+                for pos in reversed(range(n)):
+                    specs.append((shape, 'graft:%s:%s:%s@%d' % (where, 'children' if children else 'nochildren',
+                                                                'keepid' if keep_id else 'newid', pos), (1,)))
+    for shape in h.tree_shapes(3 if (tier == 'quick' or not full) else 4):
+        if sum(1 for ch in repr(shape) if ch == '(') - 1 < (3 if once else 2):
+            continue
+        for k in range(1 if (tier == 'quick' or not full) else 2):
+            specs.append((shape, 'mix:%d' % k, (0, 1, 2)))
+
+    def maker(shape, spec, pps, fmt):
+        fill = 'c11-rel-%s-%r-%s' % (seed, shape, spec)
+
+        def make():
+            rnd = random.Random(fill)
+            bad = []
+            graft = None
+            rel_of = None
+            mode_of = (lambda kind, k: 'plain')
+            if spec.startswith('one:'):
+                mode, pos = spec[4:].rsplit('@', 1)
+                pos = int(pos)
+                rel_of = (lambda kind, k: mode if k == pos else 'own')
+            elif spec.startswith('all:'):
+                rel_of = (lambda kind, k: spec[4:])
+            elif spec.startswith('graft:'):
+                body, pos = spec[6:].rsplit('@', 1)
+                where, ch, ki = body.split(':')
+                graft = (int(pos), where, ch == 'children', ki == 'keepid')
+            else:
+                mrnd = random.Random(fill + 'm')
+                rel_of = (lambda kind, k: 'own' if mrnd.random() < 0.4 else mrnd.choice(REL_MODES))
+                mode_of = (lambda kind, k: 'plain' if mrnd.random() < 0.5 else mrnd.choice(NAME_MODES))
+                if mrnd.random() < 0.6:
+                    graft = (mrnd.randrange(6), mrnd.choice(GRAFT_WHERE), mrnd.random() < 0.7, mrnd.random() < 0.6)
+            doc = build_named(shape, rnd, mode_of, props_per_sec=pps, rel_of=rel_of, infeasible=bad, graft=graft)
+            if bad and spec.startswith(('one:', 'graft:')):
+                return None                 # this relation cannot be realised at this position: no case
+            if fmt:
+                doc = via_file(doc, fmt, raw=True)
+            return doc
+        return ({'shape': repr(shape), 'fill': fill, 'linked': False, 'naming': 'plain', 'relations': spec,
+                 'loaded': fmt}, make)
+
+    out = []
+    n = 0
+    done = set()
+    for shape, spec, pps in specs:
+        group = (shape, spec.rsplit('@', 1)[0])
+        if once and group in done:
+            continue
+        wit, make = maker(shape, spec, pps, None)
+        if make() is None:
+            continue
+        done.add(group)
+        out.append((wit, make))
+        n += 1
+        if spec.startswith(('all:', 'mix:')):
+            fmts = FORMATS if (tier != 'quick' and full) else ([FORMATS[n % 3]] if (tier != 'quick' or n % 2 == 0) else [])
+        elif full:
+            fmts = [FORMATS[n % 3]] if n % (6 if tier == 'quick' else 3) == 0 else []
+        else:
+            fmts = [FORMATS[n % 3]] if n % 8 == 0 else []
+        for fmt in fmts:
+            wit, make = maker(shape, spec, pps, fmt)
+            if make() is not None:
+                out.append((wit, make))
+    return out
+
+
 # ---------------------------------------------------------------------------------------------
 # documents (re-buildable: independence checks destroy the original)
 # ---------------------------------------------------------------------------------------------
 
-def doc_makers(tier, seed, max_secs=None, per_shape=None, naming='full'):
+def doc_makers(tier, seed, max_secs=None, per_shape=None, naming='full', relations='full'):
     """[(witness, make)] ; make() builds the same document (up to uuids) every time it is called."""
     if max_secs is None:
         max_secs = 4 if tier == 'quick' else 5
@@ -389,6 +773,8 @@ def doc_makers(tier, seed, max_secs=None, per_shape=None, naming='full'):
             out.append(({'shape': repr(shape), 'fill': fill, 'linked': True, 'naming': lnaming, 'loaded': None}, make))
     if naming:
         out += naming_makers(tier, seed, scope=naming)
+    if relations:
+        out += relation_makers(tier, seed, scope=relations)
     return out
 
 
@@ -419,6 +805,24 @@ def raw_snap(o, ids=True):
     if isinstance(o, BaseSection):
         return h.snap_sec(o, ids, False)
     return h.snap_prop(o, ids, False)
+
+
+def plain_snap(o, ids=True, parent=True):
+    """h.snap without the final freeze (dicts / tuples, compared with ==): the same information, cheaper."""
+    if isinstance(o, BaseDocument):
+        return h.snap_doc(o, ids, parent)
+    if isinstance(o, BaseSection):
+        return h.snap_sec(o, ids, parent)
+    if isinstance(o, BaseProperty):
+        return h.snap_prop(o, ids, parent)
+    return h.snap(o)
+
+
+def snap_diff(a, b):
+    """None when the two snapshots (plain or frozen) are equal, else the first difference as text."""
+    if a == b:
+        return None
+    return h.diff(h.freeze(a), h.freeze(b)) or 'snapshots differ'
 
 
 def without_children(d):
@@ -535,6 +939,14 @@ def pairs(orig, copy):
     return out
 
 
+def lcall(fn, *a, **kw):
+    """h.call without silencing (used inside one enclosing h.quiet(): entering it per call is expensive)."""
+    try:
+        return 'ret', fn(*a, **kw)
+    except Exception as exc:       # noqa
+        return 'exc', exc
+
+
 def lookup_problems(orig, copy, classes, names=None):
     """Every sub-object of the copy must be found, through the public name lookup of the copy, under the name the
     corresponding object has in the original, and what is found must have the content of that original object.
@@ -547,11 +959,11 @@ def lookup_problems(orig, copy, classes, names=None):
             for child in list.__iter__(getattr(o, attr)):
                 nm = names[id(child)] if names is not None else child._name
                 cls = '%s with %s' % (what, classes.get(id(child), 'n/a'))
-                kind, lst = h.call(getattr, c, pub)
+                kind, lst = lcall(getattr, c, pub)
                 if kind == 'exc':
                     out.append((cls, 'copy.%s raised %r' % (pub, lst)))
                     continue
-                kind, found = h.call(lambda: lst[nm])
+                kind, found = lcall(lambda: lst[nm])
                 if kind == 'exc':
                     out.append((cls, 'looking up %r (name in the original) among the %s of the copied %s raised %r; '
                                      'names there: %r' % (nm, pub, kind_of(c), found,
@@ -560,13 +972,13 @@ def lookup_problems(orig, copy, classes, names=None):
                 if not any(found is x for x in list.__iter__(getattr(c, attr))):
                     out.append((cls, 'lookup of %r returned %r which is not a child of the copied %s' % (nm, found, kind_of(c))))
                     continue
-                kind, pubname = h.call(getattr, found, 'name')
+                kind, pubname = lcall(getattr, found, 'name')
                 if kind == 'exc' or pubname != nm:
                     out.append((cls, 'object found under %r reports name %r' % (nm, pubname)))
-                d = h.diff(h.freeze(own_attributes(child)), h.freeze(own_attributes(found)))
+                d = snap_diff(own_attributes(child), own_attributes(found))
                 if d:
                     out.append((cls, 'object found under %r differs from the original object of that name: %s' % (nm, d)))
-                kind, isin = h.call(lambda: nm in lst)
+                kind, isin = lcall(lambda: nm in lst)
                 if kind == 'exc' or isin is not True:
                     out.append((cls, '%r in copy.%s gave %r' % (nm, pub, isin)))
     return out
@@ -593,7 +1005,7 @@ def judge_clone(col, name, orig, copy, children, keep_id, witness, via='clone', 
     exp = raw_snap(orig, ids=False)
     if not children:
         exp = without_children(exp)
-    d = h.diff(h.freeze(exp), h.snap(copy, ids=False, parent=False))
+    d = snap_diff(exp, raw_snap(copy, ids=False))
     if d:
         fail('equal-content' if children else 'equal-attributes',
              '%s: %s' % (k, locate_difference(orig, copy, children, classes)),
@@ -611,7 +1023,9 @@ def judge_clone(col, name, orig, copy, children, keep_id, witness, via='clone', 
             fail('no-children', k, 'copy has %d children although children=False' % n)
     else:
         seen = set()
-        for feature, detail in lookup_problems(orig, copy, classes, names):
+        with h.quiet():
+            found_problems = lookup_problems(orig, copy, classes, names)
+        for feature, detail in found_problems:
             if feature not in seen:
                 seen.add(feature)
                 fail('lookup-by-original-name', '%s: %s' % (k, feature), detail)
@@ -655,6 +1069,7 @@ def clone_call(node, children, keep_id):
     return h.call(node.clone, children=children, keep_id=keep_id)
 
 
+@tidy
 def run_clone(tier, seed):
     name = 'C11.clone'
     col = Col(name, rule='every node (Document, Section, Property) of every generated document as clone root x children in '
@@ -662,25 +1077,35 @@ def run_clone(tier, seed):
                          'to N Sections x random rich fillings, documents with a resolved link, and the naming dimension '
                          '(every placement shape x every position/depth x 18 relations between the name of an object and '
                          'ids: unnamed in 6 ways, own id in other spellings, foreign uuids, id of another object; uniform; '
-                         'random mixtures; the same loaded from XML/JSON/YAML files); distinct = (node kind, flags, has '
-                         'children, has nested values, depth, name/id relation of the node, id-related names below, '
-                         'linked, loaded, generation)', exhaustive=False)
+                         'random mixtures; the same loaded from XML/JSON/YAML files), and the relation dimension (every '
+                         'position/depth x the object shares its id - set through oid= or new_id(oid) - / its name / its '
+                         'attributes with the Document, its parent, an ancestor, a sibling, a child, a descendant, an '
+                         'object of another branch; uniform, e.g. all ids of the document equal; clones made with every '
+                         'flag combination grafted below / below a descendant of / next to / above their original and in '
+                         'another branch; mixtures with the naming modes; the same loaded from files with repeated ids); '
+                         'distinct = (node kind, flags, has children, has nested values, depth, name/id relation of the '
+                         'node, id-related names below, linked, loaded, with whom the node shares its id, ids repeated '
+                         'below the node, content relation of the node, generation)', exhaustive=False)
     for wit, make in doc_makers(tier, seed):
         doc = make()
         classes = name_classes(doc)
+        idc, cont = id_classes(doc), content_classes(doc)
+        before_doc = plain_snap(doc)    # the whole document (it contains the node) must never change
         for node in all_nodes(doc):
             k = kind_of(node)
             flagsets = [(True, True), (True, False)] if k == 'property' else \
                 [(True, True), (True, False), (False, True), (False, False)]
+            below = [] if k == 'property' else [x for l in h.walk(node) for x in l]
+            ids_below = [x._id for x in [node] + below]
             for children, keep_id in flagsets:
-                before_doc = h.snap(doc)
-                before_node = h.snap(node)
                 names = names_of(node)
                 w = dict(wit, node=node_path(node))
                 nested = k == 'property' and any(isinstance(v, list) for v in node._values)
                 haskids = bool(getattr(node, '_sections', None)) or bool(getattr(node, '_props', None))
                 key = (k, children, keep_id, haskids, nested, wit['linked'], depth_of(node),
-                       classes.get(id(node), 'n/a'), subtree_trait(node, classes), bool(wit['loaded']))
+                       classes.get(id(node), 'n/a'), subtree_trait(node, classes), bool(wit['loaded']),
+                       idc[id(node)], len(set(ids_below)) < len(ids_below),
+                       any(idc[id(x)] != 'unique' for x in below), cont.get(id(node), 'n/a'))
                 col.case(cls_key=key + (1,),
                          sample='%s %s children=%s keep_id=%s' % (wit['shape'], node_path(node), children, keep_id))
                 kind, copy = clone_call(node, children, keep_id)
@@ -689,15 +1114,16 @@ def run_clone(tier, seed):
                              witness=dict(w, children=children, keep_id=keep_id), detail='clone raised %r' % (copy,))
                 else:
                     judge_clone(col, name, node, copy, children, keep_id, w, classes=classes, names=names)
-                d = h.diff(before_doc, h.snap(doc)) or h.diff(before_node, h.snap(node))
+                d = snap_diff(before_doc, plain_snap(doc))
                 if d:
                     col.fail(check=name + '/original-untouched', cls={'clause': 'original-untouched', 'feature': k},
                              witness=dict(w, children=children, keep_id=keep_id),
                              detail='the call changed the original: %s' % d)
+                    before_doc = plain_snap(doc)
                 # the copy of a copy (the copy is a detached tree of its own; its names still refer to ids of the first tree)
                 if kind == 'ret' and isinstance(copy, type(node)) and (children or k == 'property'):
                     col.case(cls_key=key + (2,))
-                    before_copy = h.snap(copy)
+                    before_copy = plain_snap(copy)
                     names2 = names_of(copy)
                     classes2 = name_classes(copy)
                     kind2, copy2 = clone_call(copy, children, keep_id)
@@ -707,11 +1133,12 @@ def run_clone(tier, seed):
                                  witness=dict(w2, children=children, keep_id=keep_id), detail='clone of the copy raised %r' % (copy2,))
                     else:
                         judge_clone(col, name, copy, copy2, children, keep_id, w2, classes=classes2, names=names2)
-                    d = h.diff(before_copy, h.snap(copy)) or h.diff(before_doc, h.snap(doc))
+                    d = snap_diff(before_copy, plain_snap(copy)) or snap_diff(before_doc, plain_snap(doc))
                     if d:
                         col.fail(check=name + '/original-untouched', cls={'clause': 'original-untouched', 'feature': k},
                                  witness=dict(w2, children=children, keep_id=keep_id),
                                  detail='cloning the copy changed the copy or the first original: %s' % d)
+                        before_doc = plain_snap(doc)
     _templates_part(col, name, tier, seed)
     cleanup_work()
     return col.result()
@@ -726,7 +1153,7 @@ def _templates_part(col, name, tier, seed):
     old_tmp = tempfile.tempdir
     tempfile.tempdir = os.path.join(tdir, 'tmp')
     try:
-        makers = [m for m in doc_makers(tier, seed, max_secs=3, per_shape=1, naming='reduced')
+        makers = [m for m in doc_makers(tier, seed, max_secs=3, per_shape=1, naming='reduced', relations='reduced')
                   if not m[0]['linked'] and not m[0]['loaded']]
         for n, (wit, make) in enumerate(makers):
             doc = make()
@@ -734,6 +1161,13 @@ def _templates_part(col, name, tier, seed):
                 continue
             fname = os.path.join(tdir, 'tpl_%d.xml' % n)
             kind, _ = h.call(odml.save, doc, fname, 'XML')
+            if kind == 'exc' and wit.get('relations'):
+                # refused by the validating writer (repeated ids): such template files exist nevertheless
+                from odml.tools.odmlparser import ODMLWriter
+                kind, text = h.call(ODMLWriter('XML').to_string, doc)
+                if kind == 'ret':
+                    with open(fname, 'w', encoding='utf-8') as f:
+                        f.write(text)
             if kind == 'exc':
                 continue
             url = 'file://' + fname
@@ -753,8 +1187,10 @@ def _templates_part(col, name, tier, seed):
                         if orig is None:
                             continue
                         classes = name_classes(loaded)
+                        idc = id_classes(loaded)
                         col.case(cls_key=('template', children, keep_id, bool(top._sections), bool(top._props),
-                                          classes.get(id(orig), 'n/a'), subtree_trait(orig, classes)))
+                                          classes.get(id(orig), 'n/a'), subtree_trait(orig, classes), idc[id(orig)],
+                                          any(idc[id(x)] != 'unique' for l in h.walk(orig) for x in l)))
                         judge_clone(col, name, orig, copy, children, keep_id, w, classes=classes)
             os.remove(fname)
     finally:
@@ -778,40 +1214,103 @@ def expected_leaf(chain):
 def chain_lookup_problems(chain, node, res, classes):
     """Walk the result from its root by the names of the original chain (public lookups); every Property of every
     Section on the chain must be found under its original name with its original content and id.
-    -> [(feature, detail)]"""
+    (called inside h.quiet())  -> [(feature, detail)]"""
     out = []
+
+    def props_found(sec, found):
+        for p in list.__iter__(sec._props):
+            pcls = 'property with %s' % classes.get(id(p), 'n/a')
+            kind, fp = lcall(lambda: found.properties[p._name])
+            if kind == 'exc' or not isinstance(fp, BaseProperty):
+                out.append((pcls, 'looking up Property %r of chain Section %r in the result gave %r' % (p._name, sec._name, fp)))
+                continue
+            d = snap_diff(raw_snap(p, ids=True), raw_snap(fp, ids=True))
+            if d or fp.name != p._name:
+                out.append((pcls, 'Property %r found in the result differs from the original: %s' % (p._name, d)))
+
     cur = res
+    if isinstance(chain[0], BaseSection):           # detached tree: the root of the chain is a Section
+        if not isinstance(res, BaseSection):
+            return out
+        props_found(chain[0], res)
     for sec in chain[1:]:
         cls = 'section with %s' % classes.get(id(sec), 'n/a')
-        kind, found = h.call(lambda: cur.sections[sec._name])
+        kind, found = lcall(lambda: cur.sections[sec._name])
         if kind == 'exc' or not isinstance(found, BaseSection):
             out.append((cls, 'looking up chain Section %r in the result gave %r' % (sec._name, found)))
             return out
         if found.name != sec._name or found.id != sec._id:
             out.append((cls, 'chain Section %r / id %r is %r / %r in the result' % (sec._name, sec._id, found.name, found.id)))
-        for p in list.__iter__(sec._props):
-            pcls = 'property with %s' % classes.get(id(p), 'n/a')
-            kind, fp = h.call(lambda: found.properties[p._name])
-            if kind == 'exc' or not isinstance(fp, BaseProperty):
-                out.append((pcls, 'looking up Property %r of chain Section %r in the result gave %r' % (p._name, sec._name, fp)))
-                continue
-            d = h.diff(h.snap(p, ids=True, parent=False), h.snap(fp, ids=True, parent=False))
-            if d or fp.name != p._name:
-                out.append((pcls, 'Property %r found in the result differs from the original: %s' % (p._name, d)))
+        props_found(sec, found)
         cur = found
     return out
 
 
+def chain_id_class(chain, last):
+    """How the ids on the chain root..object relate: all different / the id of the exported Section occurs again
+    above it / only other ids on the chain repeat (Properties of the chain Sections included)."""
+    above = [c._id for c in chain[:-1]] + [p._id for c in chain[:-1] if isinstance(c, BaseSection)
+                                          for p in list.__iter__(c._props)]
+    if last._id in above:
+        return 'id of the exported Section repeated above it'
+    every = above + [last._id] + [p._id for p in list.__iter__(last._props)]
+    return 'other ids repeated on the chain' if len(set(every)) < len(every) else 'ids on the chain unique'
+
+
+def locate_chain_difference(chain, res):
+    """Stable label of the first place where the result differs from the expected chain, walking down level by level."""
+    cur = res
+    for depth, exp in enumerate(chain):
+        where = 'root' if depth == 0 else ('exported Section' if depth == len(chain) - 1 else 'Section on the chain')
+        if kind_of(cur) != kind_of(exp):
+            return 'kind of %s' % where
+        a, b = own_attributes(exp), own_attributes(cur)
+        a.pop('props', None)
+        b.pop('props', None)
+        for f in sorted(a):
+            if a[f] != b.get(f, '<missing>'):
+                return '%s of %s' % (f.lstrip('_'), where)
+        if cur._id != exp._id:
+            return 'id of %s' % where
+        if isinstance(exp, BaseSection):
+            pe = [h.snap(p, ids=True, parent=False) for p in list.__iter__(exp._props)]
+            pc = [h.snap(p, ids=True, parent=False) for p in list.__iter__(cur._props)]
+            if len(pe) != len(pc):
+                return 'number of Properties of %s' % where
+            if pe != pc:
+                return 'a Property of %s' % where
+        subs = list(list.__iter__(cur._sections))
+        want = 0 if depth == len(chain) - 1 else 1
+        if len(subs) != want:
+            if len(subs) < want:
+                return 'chain cut, the lower levels are missing'
+            return '%s has %d sub-Sections instead of %d' % (where, len(subs), want)
+        if want:
+            cur = subs[0]
+    return 'other'
+
+
+@tidy
 def run_export_leaf(tier, seed):
     name = 'C11.export_leaf'
-    col = Col(name, rule='every Section and every Property of every generated document (same documents as C11.clone, '
-                         'including the naming dimension and documents loaded from files) as export root; distinct = '
-                         '(node kind, depth, siblings present, properties on the chain, name/id relation of the node, '
-                         'id-related names on the chain, linked, loaded)', exhaustive=False)
-    for wit, make in doc_makers(tier, seed):
-        doc = make()
-        classes = name_classes(doc)
-        secs, props = h.walk(doc)
+    col = Col(name, rule='every Section and every Property of every generated document (same documents as C11.clone: '
+                         'naming dimension, relation dimension - ids / names / attributes / content shared with the '
+                         'Document, the parent, an ancestor, a sibling, a child, a descendant, another branch; clones '
+                         'grafted below / next to / above their original - and documents loaded from files) as export '
+                         'root, in the document and (relation documents, a sample of the others) in a top-level Section '
+                         'detached from it; distinct = (root kind, node kind, depth, siblings present, properties on '
+                         'the chain, name/id relation of the node, id-related names on the chain, linked, loaded, id '
+                         'relation of node and exported Section, ids repeated on the chain, content relation)',
+              exhaustive=False)
+
+    def cases(root, wit):
+        classes = name_classes(root)
+        idc, cont = id_classes(root), content_classes(root)
+        secs, props = h.walk(root)
+        if isinstance(root, BaseSection):
+            secs = [root] + secs
+        rootkind = kind_of(root)
+        before = plain_snap(root)       # the whole tree must never change
         for node in secs + props:
             k = kind_of(node)
             last = node if k == 'section' else node._parent
@@ -820,49 +1319,65 @@ def run_export_leaf(tier, seed):
             while x is not None:
                 chain.insert(0, x)
                 x = getattr(x, '_parent', None)
-            exp = h.freeze(expected_leaf(chain))
-            before = h.snap(doc)
-            w = dict(wit, node=node_path(node))
+            exp = expected_leaf(chain)
+            w = dict(wit, node=node_path(node), root=rootkind)
             on_chain = [c for c in chain[1:]] + [p for c in chain[1:] for p in list.__iter__(c._props)]
-            col.case(cls_key=(k, len(chain), any(len(c._sections) > 1 for c in chain),
+            ids_on_chain = chain_id_class(chain, last)
+            col.case(cls_key=(rootkind, k, len(chain), any(len(c._sections) > 1 for c in chain),
                               sum(len(getattr(c, '_props', ())) for c in chain) > 0, wit['linked'],
                               classes.get(id(node), 'n/a'),
                               any(classes.get(id(o)) not in ('plain-name', 'odd-name') for o in on_chain if o is not node),
-                              bool(wit['loaded'])),
+                              bool(wit['loaded']), idc[id(node)], idc[id(last)], ids_on_chain,
+                              cont.get(id(node), 'n/a'), cont.get(id(last), 'n/a')),
                      sample='%s %s' % (wit['shape'], node_path(node)))
             kind, res = h.call(node.export_leaf)
             if kind == 'exc':
                 col.fail(check=name + '/returns', cls={'clause': 'returns', 'feature': '%s %s' % (k, type(res).__name__)},
                          witness=w, detail='export_leaf raised %r' % (res,))
                 continue
-            if not isinstance(res, BaseDocument):
+            if kind_of(res) != rootkind or not isinstance(res, (BaseDocument, BaseSection)):
                 col.fail(check=name + '/root-is-document', cls={'clause': 'root-is-document', 'feature': k}, witness=w,
-                         detail='observed %r; the root of the chain is the Document' % (res,))
+                         detail='observed %r; the root of the chain is the %s' % (res, rootkind))
                 continue
-            d = h.diff(exp, h.snap(res, ids=True, parent=False))
+            d = snap_diff(exp, raw_snap(res, ids=True))
             if d:
-                col.fail(check=name + '/exact-chain', cls={'clause': 'exact-chain', 'feature': k}, witness=w,
-                         detail='first difference expected chain vs result: %s' % d)
+                col.fail(check=name + '/exact-chain',
+                         cls={'clause': 'exact-chain',
+                              'feature': '%s: %s; %s' % (k, locate_chain_difference(chain, res), ids_on_chain)},
+                         witness=w, detail='first difference expected chain vs result: %s' % d)
             seen = set()
-            for feature, detail in chain_lookup_problems(chain, node, res, classes):
+            with h.quiet():
+                found_problems = chain_lookup_problems(chain, node, res, classes)
+            for feature, detail in found_problems:
                 if feature not in seen:
                     seen.add(feature)
                     col.fail(check=name + '/lookup-by-original-name',
                              cls={'clause': 'lookup-by-original-name', 'feature': '%s: %s' % (k, feature)},
                              witness=w, detail=detail)
-            shared = set(identities(doc)) & set(identities(res))
+            shared = set(identities(root)) & set(identities(res))
             if shared:
-                labels = identities(doc)
+                labels = identities(root)
                 col.fail(check=name + '/is-a-copy', cls={'clause': 'is-a-copy', 'feature': k}, witness=w,
                          detail='objects shared with the original: %r' % (sorted(labels[i] for i in shared)[:6],))
             probs = h.wellformed(res)
             if res.parent is not None or probs:
                 col.fail(check=name + '/detached-wellformed', cls={'clause': 'detached-wellformed', 'feature': k}, witness=w,
                          detail='result not a well-formed detached tree: %r' % (probs[:3],))
-            d = h.diff(before, h.snap(doc))
+            d = snap_diff(before, plain_snap(root))
             if d:
                 col.fail(check=name + '/original-untouched', cls={'clause': 'original-untouched', 'feature': k}, witness=w,
                          detail='the call changed the original: %s' % d)
+                before = plain_snap(root)
+
+    for n, (wit, make) in enumerate(doc_makers(tier, seed)):
+        cases(make(), wit)
+        # the same in a tree whose root is a Section: every top-level Section taken out of a fresh build of the document
+        if n % (2 if wit.get('relations') else 8) == 0 if tier == 'quick' else (wit.get('relations') or n % 2 == 0):
+            doc = make()
+            for top in list(list.__iter__(doc._sections)):
+                h.call(doc.remove, top)
+                if top._parent is None:
+                    cases(top, wit)
     cleanup_work()
     return col.result()
 
@@ -1237,7 +1752,7 @@ def edit_sequence(rnd, target, observed, length):
         else:
             break
         labels.append(lab)
-        d = h.diff(before, observed())
+        d = snap_diff(before, observed())
         if d:
             return labels, d
     return labels, None
@@ -1256,7 +1771,7 @@ def every_op_once(rnd, target, observed, first=()):
         if not lab:
             continue
         labels.append(lab)
-        d = h.diff(before, observed())
+        d = snap_diff(before, observed())
         if d:
             return labels, d
     return labels, None
@@ -1271,24 +1786,39 @@ def _index_of(doc, node):
     return next(i for i, n in enumerate(nodes) if n is node)
 
 
+@tidy
 def run_independence(tier, seed):
     name = 'C11.independence'
     col = Col(name, rule='(way the copy was obtained: clone x flags | export_leaf | list returned by values | list '
                          'passed as values (setter, constructor)) x node x direction (edit copy / edit original) x '
                          'random edit sequence drawn from 27 operations (value edits, attribute edits, renames incl. taking the name away and naming after an id, new ids, '
                          'add/remove/move/reorder/replace children, cardinalities, merge, clean), checked after every '
-                         'edit; documents as in C11.clone with a reduced naming dimension; distinct = (way, node kind, direction, has nested values, name/id relation of the node, loaded)', exhaustive=False)
+                         'edit; documents as in C11.clone with a reduced naming dimension and a reduced relation dimension '
+                         '(ids / attributes shared with parent, ancestor, sibling, child, other branch, Document; clones '
+                         'grafted into the document of their original; quick tier: of these documents only the Document '
+                         'and the related objects as copy root); distinct = (way, node kind, direction, has nested values, '
+                         'name/id relation of the node, loaded, with whom the node shares its id, repeated ids in the '
+                         'document, content relation of the node)', exhaustive=False)
     rnd = random.Random('c11-ind-%s' % seed)
     seq_len = 8 if tier == 'quick' else 14
     makers = doc_makers(tier, seed, max_secs=4 if tier == 'quick' else 5, per_shape=2 if tier == 'quick' else 3,
-                         naming='reduced')
+                         naming='reduced', relations='reduced')
 
     # ---- tree copies: clone and export_leaf
     for wit, make in makers:
         probe = make()
-        n_nodes = len(all_nodes(probe))
+        pnodes = all_nodes(probe)
+        n_nodes = len(pnodes)
+        # the document is re-built for every case: its classification is the same every time
+        pname, pidc, pcont = name_classes(probe), id_classes(probe), content_classes(probe)
+        shared_ids = any(v != 'unique' for v in pidc.values())
         for idx in range(n_nodes):
-            k = kind_of(all_nodes(probe)[idx])
+            k = kind_of(pnodes[idx])
+            if wit.get('relations') and tier == 'quick' and idx > 0 and pidc[id(pnodes[idx])] == 'unique' \
+                    and pcont.get(id(pnodes[idx])) in ('distinct', 'name-of-object-above'):
+                continue        # quick tier: of the relation documents only the Document and the related objects
+            ncls = (pname.get(id(pnodes[idx]), 'n/a'), pidc[id(pnodes[idx])], shared_ids,
+                    pcont.get(id(pnodes[idx]), 'n/a'))
             ways = [('clone', True, False), ('clone', True, True)]
             if k != 'property':
                 ways.append(('clone', False, False))
@@ -1306,14 +1836,13 @@ def run_independence(tier, seed):
                     if kind == 'exc':
                         continue        # reported by run_clone / run_export_leaf
                     nested = any(isinstance(v, list) for p in _props(node) for v in p._values)
-                    col.case(cls_key=(way, children, keep_id, k, direction, nested, wit['linked'],
-                                      name_classes(doc).get(id(node), 'n/a'), bool(wit['loaded'])),
+                    col.case(cls_key=(way, children, keep_id, k, direction, nested, wit['linked'], bool(wit['loaded'])) + ncls,
                              sample='%s %s %s %s' % (wit['shape'], node_path(node), way, direction))
                     if direction == 'edit-copy':
-                        target, observed = copy, (lambda doc=doc: h.snap(doc))
+                        target, observed = copy, (lambda doc=doc: plain_snap(doc))
                     else:
                         # edit the whole original document, not only the node
-                        target, observed = doc, (lambda copy=copy: h.snap(copy))
+                        target, observed = doc, (lambda copy=copy: plain_snap(copy))
                     if rnd.random() < 0.5:
                         labels, d = every_op_once(rnd, target, observed)
                     else:
